@@ -209,6 +209,9 @@ class Circuit:
         # Remap mode
         mode = self._map_mode(mode)
         self._mode_in_range(mode)
+        # Work with a plain integer (other integral values pass the range check
+        # but would end up in the herald modes, which the compiler refuses)
+        mode = int(mode)
         # Make copy of circuit to avoid modification
         circuit_copy = circuit.copy()
         # Use unpack groups and check if heralds are used
